@@ -48,6 +48,46 @@ def sh(cmd, timeout, cwd=None, env=None, stdin=None):
         return 124, out + "\n[timeout after %ss]" % timeout, time.time() - t0
 
 
+def sh_watch(cmd, timeout, stall_s, outdir, cwd=None, env=None):
+    """Run a runner; kill it when it exceeds `timeout` or makes no progress (neither inflight.json
+    nor cases.jsonl changes) for `stall_s` seconds.  rc 124 = timeout, 125 = stalled."""
+    t0 = time.time()
+    logp = os.path.join(outdir, "runner.log")
+    with open(logp, "w") as lf:
+        p = subprocess.Popen(cmd, cwd=cwd, env=env, stdout=lf, stderr=subprocess.STDOUT)
+        last_sig, last_change = None, time.time()
+        rc = None
+        while True:
+            try:
+                rc = p.wait(timeout=2)
+                break
+            except subprocess.TimeoutExpired:
+                pass
+            sig = []
+            for fn in ("inflight.json", "cases.jsonl"):
+                fp = os.path.join(outdir, fn)
+                try:
+                    st = os.stat(fp)
+                    sig.append((st.st_mtime_ns, st.st_size))
+                except OSError:
+                    sig.append(None)
+            now = time.time()
+            if sig != last_sig:
+                last_sig, last_change = sig, now
+            if now - t0 > timeout:
+                p.kill(); p.wait(); rc = 124
+                break
+            if now - last_change > stall_s:
+                p.kill(); p.wait(); rc = 125
+                break
+    out = open(logp, errors="replace").read()
+    if rc == 124:
+        out += "\n[timeout after %ss]" % timeout
+    if rc == 125:
+        out += "\n[no progress for %ss: killed]" % stall_s
+    return rc, out, time.time() - t0
+
+
 # ------------------------------------------------------------------------------------------------
 # Coq side
 
@@ -241,7 +281,10 @@ def run_runner(exe, pid, work, outdir, seed, tier, replay=None, corpus=True, tim
     tmo = timeout or PROPS.get(pid, {}).get("runner_timeout_" + tier, PROPS.get(pid, {}).get("runner_timeout", 420 if tier == "quick" else 3000))
     if tier == "quick" and not timeout:
         tmo = min(tmo, 600)   # a quick run that needs longer is stuck: the in-flight case is reported
-    return sh(cmd, tmo, cwd=work, env=env)
+    # runners with long single cases (real MPC protocol runs, children rebuilt with -race)
+    slow = pid in ("C08", "C09", "C10", "C12", "C17", "C18")
+    stall = PROPS.get(pid, {}).get("stall_s", (320 if slow else 150) if tier == "quick" else 900)
+    return sh_watch(cmd, tmo, stall, outdir, cwd=work, env=env)
 
 
 def evaluate(outdir):
@@ -380,6 +423,14 @@ def main():
     if built and run_vo:
         outdir = os.path.join(work, "run0")
         rc, rout, dt_run = run_runner(exe, pid, work, outdir, seed, tier, replay=a.replay)
+        # a runner that died, hung or stalled is believed only if it does so again: re-run it (same
+        # cases) up to two more times; a later complete run is used and the flake is noted
+        retry = 0
+        while (rc != 0 or not os.path.exists(os.path.join(outdir, "stats.json"))) and retry < 2:
+            retry += 1
+            notes.append("runner attempt %d ended with rc=%s (%s); re-running" % (retry, rc, rout.strip()[-200:].replace("\n", " | ")))
+            outdir = os.path.join(work, "run0_retry%d" % retry)
+            rc, rout, dt_run = run_runner(exe, pid, work, outdir, seed, tier, replay=a.replay)
         if rc != 0 or not os.path.exists(os.path.join(outdir, "stats.json")):
             crash = None
             for fn in ("crash.json", "inflight.json"):
@@ -493,6 +544,7 @@ def main():
         "judge_rejections": len(judge_fail),
         "known_findings_hit": sorted(known_hit.keys()),
         "broken": broken,
+        "runner_notes": notes,
         "extra_search_evaluations": searched,
         "repo": REPO,
         "coqchk": chk,
